@@ -193,6 +193,9 @@ def writer_reads_after_lock(ctx, rule='C09.writer-reads-after-lock'):
         # clone of the shared free list: Clone::clone on a value derived from the guard of DBInner.freelist
         if c and c['path'] == 'std::clone::Clone::clone' and 'freelist::Freelist' in (c.get('self_ty') or ''):
             sites.append((bb, 'copy of the shared free list'))
+        # the transaction's own reference to the map: a writer that waits for the lock with an older map reads the new header's pages beyond its end
+        if c and c['path'] == 'std::clone::Clone::clone' and 'Arc<memmap2::Mmap>' in (c.get('self_ty') or ''):
+            sites.append((bb, 'copy of the shared map'))
     f = floor(rule, 'snapshot reads (header, shared free list) on the writer begin path', len(sites), 2)
     if f:
         res.append(f)
@@ -366,7 +369,7 @@ def snapshot_source(ctx, rule='C09.snapshot-source'):
         return [unresolved(rule, str(e))]
     scope = [hdr] + sorted((g for g in F.reachable_fns([hdr]) if g is not hdr and g.kind != 'Closure' and 'meta::Meta' in g.locals[0]['ty']
                             and g.self_adt and last_seg(g.self_adt) == 'DBInner'), key=lambda f: f.path)
-    ALLOWED = {'data', 'pagesize'}
+    ALLOWED = {'data', 'pagesize', 'flags'}      # the map, and immutable configuration
     nf = 0
     for fn in scope:
         du = ctx.du(fn)
